@@ -78,8 +78,9 @@ def checkField (disc t gender : Str) : Res :=
   match floatOf t with
   | none => .refused
   | some (n, d, decs) =>
-    if tooLarge disc gender n d then .refused
-    else if decs ≤ 2 then .ok (fmt2 (n * 100 / d)) else .skip
+    if decs > 2 then .skip       -- the record check applies to the distance rounded to hundredths (binary `round`): not modelled
+    else if tooLarge disc gender n d then .refused
+    else .ok (fmt2 (n * 100 / d))
 
 def checkMulti (t : Str) : Res :=
   match pyInt t with
@@ -123,9 +124,9 @@ def speedBad (dpos : Bool) (dval durN sd : Nat) : Bool :=
 def timedGuards (xc dpos : Bool) (dval hours minutes sn sd sdecs : Nat) : TimedRes :=
   if (hours > 0 || minutes > 0) && sn ≥ 60 * sd then .refused
   else if hours > 0 && minutes ≥ 60 then .refused
+  else if sdecs > 2 then .skip      -- the speed checks apply to the time rounded to hundredths (binary `round`): not modelled
   else if speedBad dpos dval ((3600 * hours + 60 * minutes) * sd + sn) sd then .refused
   else if !(dpos && (3600 * hours + 60 * minutes) * sd + sn > 0) && xc && minutes == 0 then .refused
-  else if sdecs > 2 then .skip
   else .time hours minutes (sn * 100 / sd)
 
 /-- the checks on the parsed fields: seconds = sn0 / sd0 with sdecs0 decimals -/
